@@ -139,7 +139,7 @@ pub fn run(ctx: &Ctx, rep: &mut Report) {
         let hub_addr: Vec<u8> = rng.pick(&[b"axelar1hubaddressxyz".to_vec(), b"hub".to_vec()]).clone();
         let mut w = ItsWorld::new(&mut rng, b"stellar", &hub_addr, 3);
         w.trust(b"ethereum");
-        w.trust(b"avalanche");
+        w.trust(b"Avalanche-Fuji");
         w.trust(b"temp");
         // "temp" is trusted and removed again
         {
@@ -199,20 +199,20 @@ pub fn run(ctx: &Ctx, rep: &mut Report) {
             }
             // trusted-chain history: avalanche's trust flips between rounds
             if rng.chance(1, 2) {
-                let now = w.model.trusted.contains(&b"avalanche".to_vec());
-                let o = w.do_set_trusted(b"avalanche", !now, Auth::Only(vec![w.owner.clone()]));
+                let now = w.model.trusted.contains(&b"Avalanche-Fuji".to_vec());
+                let o = w.do_set_trusted(b"Avalanche-Fuji", !now, Auth::Only(vec![w.owner.clone()]));
                 if !o.ok() {
                     rep.foreign("trusted-chain-change-refused");
                     break;
                 }
                 if now {
-                    w.model.trusted.remove(&b"avalanche".to_vec());
+                    w.model.trusted.remove(&b"Avalanche-Fuji".to_vec());
                 } else {
-                    w.model.trusted.insert(b"avalanche".to_vec());
+                    w.model.trusted.insert(b"Avalanche-Fuji".to_vec());
                 }
             }
             let trusted_now: Vec<Vec<u8>> = w.model.trusted.iter().cloned().collect();
-            let removed_now: Vec<Vec<u8>> = [b"temp".to_vec(), b"avalanche".to_vec()].iter().filter(|c| !w.model.trusted.contains(*c)).cloned().collect();
+            let removed_now: Vec<Vec<u8>> = [b"temp".to_vec(), b"Avalanche-Fuji".to_vec()].iter().filter(|c| !w.model.trusted.contains(*c)).cloned().collect();
             let kind = KINDS[rng.usize(4)];
             let conf = Conforming {
                 kind,
